@@ -41,7 +41,9 @@ class SurfaceEvolver:
             edges[int(r.id)].gt = round(edges_temp.loc[edges_temp['id'] == int(r.id)]['force'].iloc[0], 4)
 
         cells = {}
+        edges_in_cells = set()
         for _, r in self.get_cells().iterrows():
+            edges_in_cells.update(abs(e) for e in r.edges)
             vlist = [edges[abs(e)].v1 if e > 0 else edges[abs(e)].v2 for e in r.edges]
             gt_pressure = round(r["pressures"], 4)
             cells[int(r.id)] = cell.Cell(int(r.id), vlist, gt_pressure=gt_pressure)
@@ -60,6 +62,10 @@ class SurfaceEvolver:
                     pass
         
             del vertices[i]
+
+        # an edge between two vertices that do have cells can still belong to no cell itself
+        for eid in [eid for eid in edges if eid not in edges_in_cells]:
+            del edges[eid]
 
         return vertices, edges, cells
 
